@@ -37,4 +37,15 @@ CHECKS = {
               'tenths, all day counts, and malformed strings for the decoder.'),
         note=COMMON_NOTE + 'datetime/timedelta/strftime/int() of CPython are modelled (fields, two-digit formatting, ASCII int parsing), swept, not verified. A tzinfo is reduced to its utcoffset in seconds.',
         technique='Lean 4 theorems (decide +kernel on finite digit tables, omega) on a hand-written model; differential correspondence'),
+    'C20': dict(
+        text=('Proof. Props/C20.lean over the model of DeliverSm.encode_receipt / parse_receipt / is_receipt: '
+              'parse(build r) returns id, counts, both dates to the minute, state, error code and the padded text for '
+              'every id/state without blanks (colons allowed), every text (blanks and colons allowed), counts and err '
+              '0..999, valid dates in the two-digit-year window 1969..2068; the same for every ASCII casing of the '
+              'field names; text is last; receipted_message_id fall-back exactly when the text has no (or an empty) id; '
+              'unknown fields kept as strings; non-receipts parse to {}. strptime is modelled as the ordered-alternative '
+              'regex of _strptime and proved to accept every formatted date. Tied to protocol.py by generated '
+              'dictionaries, recasing, TLV presence, and a malformed stream for the scanner.'),
+        note=COMMON_NOTE + 'str.lower/int()/strptime/strftime/f-string formatting modelled on ASCII input only and swept, not verified. Dates outside 1969..2068 cannot round-trip through a two-digit year (format limit, excluded from the domain; see DESIGN.md).',
+        technique='Lean 4 theorems (structural scan lemmas, decide +kernel over 0..999 and calendar tables, omega) on a hand-written model; differential correspondence'),
 }
